@@ -4,7 +4,7 @@ import json, os, subprocess
 ROOT = os.path.dirname(os.path.dirname(os.path.abspath(__file__)))
 # property a fix is recorded under (first matching keyword in the commit subject)
 RULES = [
-    ("skip(n)", "C10"), ("time limit", "C10"), ("multinom", "C10"), ("sample(seq", "C10"), ("pow size pre-check", "C10"), ("pow with an exponent", "C10"), ("forward", "C03"), ("grammar: an identifier", "C03"), ("grammar: 'struct'", "C03"), ("user-defined function", "C06"), ("zip of sequences", "C06"), ("set_default", "C06"),
+    ("skip(n)", "C10"), ("time limit", "C10"), ("multinom", "C10"), ("sample(seq", "C10"), ("pow size pre-check", "C10"), ("pow with an exponent", "C10"), ("common type of two instances", "C04"), ("callable-typed value was assignable", "C04"), ("two function types compared equal", "C04"), ("default-value", "C04"), ("calls through", "C04"), ("forward", "C03"), ("grammar: an identifier", "C03"), ("grammar: 'struct'", "C03"), ("user-defined function", "C06"), ("zip of sequences", "C06"), ("set_default", "C06"),
     ("merge sort", "C19"), ("hash of a set/mapping", "C19"), ("format of i64::MIN", "C14"),
     ("generator", "C16"), ("generators", "C16"),
     ("sequence", "C15"), ("range", "C15"), ("combination", "C15"), ("to_array", "C15"),
@@ -38,6 +38,16 @@ OPEN = [
      "what": "cdf / quantile of a discrete distribution with an astronomically large parameter (poisson_distribution(1.8e19).quantile(0.5)) does not return: every cdf evaluation runs statrs' incomplete gamma / beta iteration, whose number of steps grows with the parameter and is consulted against no limit",
      "example": "let r0 = poisson_distribution(18446744073709551616.to_float()).quantile(0.5);",
      "why_not_fixed": "the loop is inside the statrs dependency; bounding it needs either a parameter ceiling (a behaviour change for valid inputs) or a different algorithm for large parameters"},
+    {"id": "K-C04-01", "property": "C04", "status": "open",
+     "sig": r"^(bottom_through_generic|least_common_type|terms)\|[a-z_]+\|(rejected_although_assignable:[A-Za-z]+\|[^|]*\|[^|]*|inferred_type_is_not_the_least_common_type)\|dangling_generic_parameter$",
+     "what": "when an argument of the bottom type meets a generic parameter of a library function or generic compound (some(error(..)), G1(error(..)), [].to_array(), if(c, error(..), error(..))), the parameter is left unbound instead of being bound to the bottom type: the resulting type keeps a dangling name (Optional<T>, G1<A>, Sequence<T>) that is assignable to nothing and has no common type with anything, so programs the rules accept are rejected (IncompatibleTypes / VariableTypeMismatch) and inferred types are not the least common type",
+     "example": "struct G1<A>(a: A)\nlet v_ = [G1(1), G1(error('e'))];",
+     "why_not_fixed": "binding the parameter to the bottom type (reordering two arms of bind_in_assignment) makes the declared-type check inside generic functions fail (`let r: Stack<T> = stack()`, 4 shipped scripts): the same routine serves call-site binding and rigid declared-type checks, which have to be separated first"},
+    {"id": "K-C04-02", "property": "C04", "status": "open",
+     "sig": r"^rigid_generic\|(callable_parameter_call|lambda_variable_call)\|accepted_although_not_assignable\|.*$",
+     "what": "inside fn host<T>(s: int, g: (T)->(int)) the call g(s) is accepted: the argument check of a call through a callable value lets the argument bind the enclosing function's type parameter; host(1, (x: str)->{x.len()}) then passes an int where a str is promised (panic: expected String, got Int)",
+     "example": "fn host<T>(s: int, g: (T)->(int))->int{ g(s) }\nlet r = host(1, (x: str)->{x.len()});",
+     "why_not_fixed": "requiring an empty binding there breaks shipped scripts 399-401: to_eq / to_cmp / to_lt return callables whose parameters are dangling type parameters (see K-C04-01) and only work because of this hole"},
     {"id": "K-C02-01", "property": "C02", "status": "open",
      "sig": r"^grammar:lt_gt_in_argument_list\|rejected$",
      "what": "`f(a < b, c > d)`: a bare name followed by `<` inside an argument / element list is parsed as a generic specialisation `a<b, c>` and the program is rejected with a syntax error (e.g. `if(x < y, y > 0, true)`); writing `(x < y)` works",
